@@ -60,6 +60,9 @@ CHECKS = {
  "C17": dict(level="exploration", ref="5 C17", tech="exhaustive walk of the real API handlers (status, every page of get-transactions by hash / address / height in both orders, balances) over synced chains, with a history-replay oracle",
    text="After syncing the coverage chains, a paging chain (blocks with 50 coinbases + 12-transaction batches, an address with 130 actions, 60 stakers), a zeroing chain with coinciding mock transaction ids and edge-semantics batch chains, every key is walked through the real handlers (about 28,000 key walks): each recorded action exactly once per hash, address and height in both orders with a consistent count; status 0 only while a graded block can still come; replaying the executed actions returned by the API plus the exempt adjustments reproduces every balance returned by get-pegnet-balances.",
    note="The handlers are reached through a build-tag-guarded exporter injected with -overlay."),
+ "C18": dict(level="model_checking", ref="5 C18", tech="stateless model checking of the real goroutines under a cooperative scheduler hooked at every database operation (preemption-bounded DFS), linearizability checked with porcupine; separate free-running race-detector pass",
+   text="The real DBlockSync (two blocks, conversions priced with averages) runs against real API handler invocations (11 read methods; pairs in thorough) under a hand-written cooperative scheduler whose scheduling points are every driver-level database operation and handler entry/exit; all schedules with <= 2 preemptions (thorough 3, and one configuration with every S point visible) are enumerated by replay-prefix DFS (about 1,750 schedules quick). Per schedule: final ledger == ledger without API load, nobody dies, blocks or deadlocks, and the commit/read history is linearizable (porcupine) against per-height reference responses computed by a fresh node; a committed block may become visible late but never early. A separate free-running -race pass of the same bodies reports races; only races on Go maps inside pegnetd count as violations.",
+   note="S's in-transaction statements are not branch points (SQLite isolation); finer-than-statement interleavings are only sampled by the race pass."),
 }
 
 NOT_YET = {}
